@@ -430,8 +430,9 @@ def main(argv=None):
         wall_s=round(time.time() - t0, 2),
         violations=len(violations),
     )
-    os.makedirs(os.path.join(ROOT, "evidence"), exist_ok=True)
-    json.dump(ev, open(os.path.join(ROOT, "evidence", f"{prop}.json"), "w"), indent=1, default=str)
+    evdir = os.environ.get("VERIF_EVIDENCE_DIR") or os.path.join(ROOT, "evidence")  # development runs against seeded worktrees write elsewhere
+    os.makedirs(evdir, exist_ok=True)
+    json.dump(ev, open(os.path.join(evdir, f"{prop}.json"), "w"), indent=1, default=str)
 
     for r in results:
         print(f"  {r['case']}: paths={r['paths']} goals={r['goals']} unsat={r['unsat']} sat={r['sat']} unknown={r['unknown']} "
